@@ -205,6 +205,17 @@ def method_json(stage):
     return {"type": "method", "stage": stage, "notation": pn, "bob": {"0": "14"}, "single": {"0": "1234"}}
 
 
+class CountingRhythm(sim.StubRhythm):
+    """Stub rhythm that remembers whether a touch was started on it (`initialise_line`)."""
+
+    def __init__(self, w):
+        super().__init__(w)
+        self.inits = 0
+
+    def initialise_line(self, *a):
+        self.inits += 1
+
+
 def fresh_bot(size, cur_stage, queued_stage):
     box = []
 
@@ -220,8 +231,10 @@ def fresh_bot(size, cur_stage, queued_stage):
     fake_socketio.set_factory(lambda c: Backend(c))
     try:
         tower = RingingRoomTower(1234, "http://x")
-        bot = Bot(tower, PlaceHolderGenerator(), True, True, True, sim.StubRhythm(0.0), user_name="Wheatley",
+        rhythm = CountingRhythm(0.0)
+        bot = Bot(tower, PlaceHolderGenerator(), True, True, True, rhythm, user_name="Wheatley",
                   server_instance_id=1)
+        bot.verif_rhythm = rhythm
         tower.__enter__()
     finally:
         fake_socketio.set_factory(None)
@@ -238,7 +251,7 @@ def fresh_bot(size, cur_stage, queued_stage):
 
 def outcome_of(bot, tower):
     return [bot.row_generator.stage, None if bot.next_row_generator is None else bot.next_row_generator.stage,
-            tower.number_of_bells, bool(bot._is_ringing)]
+            tower.number_of_bells, bot.verif_rhythm.inits > 0]
 
 
 def system(pair, p):
